@@ -223,7 +223,7 @@ func (o *c17Oracle) nontrivial() (bool, []string) {
 }
 
 func TestVerifC17(t *testing.T) {
-	standardTest(t, "C17", "TestVerifC17", runOpts{minLen: 10, maxLen: 100, gen: ircgen.Options{Bias: "membership", WithMoD: true}},
+	standardTest(t, "C17", "TestVerifC17", runOpts{minLen: 10, maxLen: 100, captchaSometimes: true, gen: ircgen.Options{Bias: "membership", WithMoD: true}},
 		func(rec *vh.Recorder) oracle { return &c17Oracle{rec: rec} })
 }
 
